@@ -107,6 +107,36 @@ def gen_pauli_inner(ctx):
 def describe_pauli(c):
     return {"mode": c["mode"], "n": c["n"], "nterms": len(c["terms"])}
 
+
+def lattice_family(ctx, stats):
+    """Hamiltonian construction: the same builder call under pools of different sizes must return the same SumOp
+    (same terms, same order, same coefficient bits; factor order inside a term is canonicalised - it is a HashMap)"""
+    rng = ctx.rng
+    threads = [1, 2, 3, 4, 5, 7, 8, 16] if not ctx.thorough() else [1, 2, 3, 4, 5, 6, 7, 8, 11, 13, 16, 32]
+    shapes = []
+    for n in ([2, 3, 4, 5, 7, 9, 16, 17, 24, 33] if not ctx.thorough() else list(range(2, 41))):
+        p5 = [float2bits(rng.uniform(-2, 2)) for _ in range(5)]
+        shapes.append(("heisenberg_1d", n, 0, p5)); shapes.append(("ising_1d_uniform", n, 0, p5[:3]))
+    for n in (2, 3, 4, 5):
+        for m in (2, 3, 5):
+            p5 = [float2bits(rng.uniform(-2, 2)) for _ in range(5)]
+            shapes.append(("heisenberg_2d", n, m, p5)); shapes.append(("ising_2d_uniform", n, m, p5[:3]))
+    cases = [{"op": "lattice", "kind": k, "n": n, "m": m, "threads": t, "p": p, "h": [], "j": []} for (k, n, m, p) in shapes for t in threads]
+    res = run_harness(cases, nproc=4)
+    st = {"shapes": len(shapes), "calls": len(cases), "identical": 0, "differ": 0}
+    canon = lambda r: json.dumps([[sorted(t["ops"]), t["coef"]] for t in r.get("terms", [])]) if r.get("r") == "ok" else json.dumps(r)
+    for i, sh in enumerate(shapes):
+        grp = list(zip(threads, res[i * len(threads):(i + 1) * len(threads)]))
+        base = canon(grp[0][1])
+        bad = [t for t, r in grp if canon(r) != base]
+        if bad:
+            st["differ"] += 1
+            ctx.violations.append(("[hamiltonian construction] %s n=%d m=%d returns a different SumOp with %s worker threads than with %d" % (sh[0], sh[1], sh[2], bad, grp[0][0]),
+                                   {"family": "lattice", "kind": sh[0], "n": sh[1], "m": sh[2], "p": sh[3], "threads_differing": bad}))
+        else:
+            st["identical"] += 1
+    stats["hamiltonian construction (thread counts)"] = st
+
 def run(ctx):
     proof_ok = proof_check(ctx)
     if ctx.thorough() and proof_ok:
@@ -139,6 +169,7 @@ def run(ctx):
             ctx.violations.append(("panic under some schedule: %s" % r.get("msg"), {"case": c, "describe": describe(c)}))
     fam = {}
     sched_family(ctx, "pauli/sumop apply + expectation", gen_pauli_inner(ctx), fam, describe_pauli)
+    lattice_family(ctx, fam)
     ctx.broken = ctx.broken[:5]
     by = {}
     for c in cases:
@@ -156,6 +187,11 @@ def replay(ctx, path):
     case = body["replay"].get("case")
     if not case:
         print("replay file carries no concrete case:", body["what"]); return 1
+    if body["replay"].get("family") == "lattice":
+        rp = body["replay"]
+        rs = run_harness([{"op": "lattice", "kind": rp["kind"], "n": rp["n"], "m": rp["m"], "threads": t, "p": rp["p"], "h": [], "j": []} for t in [1] + rp["threads_differing"]])
+        cs = [json.dumps([[sorted(t["ops"]), t["coef"]] for t in r.get("terms", [])]) for r in rs]
+        print("distinct results:", len(set(cs))); return 0 if len(set(cs)) == 1 else 1
     if body["replay"].get("family"):
         st = {}
         n0 = len(ctx.violations)
